@@ -30,9 +30,12 @@ struct Cfg {
     occupied: Option<usize>,
     /// name of the data directory (any legal file name: blanks, '#', '?', '%41', non-ASCII, quotes)
     dir_name: String,
+    /// the server runs as process 1 of a PID namespace of its own (a container): every start, and
+    /// every restart after kill -9, has the same process id
+    pidns: bool,
 }
 
-const DIR_NAMES: [&str; 15] = ["<relative>~/tss", "<relative>./state/../state/db", "<latin-1>donn\u{e9}es", "not/yet/there", "fresh volume/sync", "my data", "store#1", "which?", "tasks%41", "d\u{e4}ta-\u{fc}", "a'b\"c", "x;y&z", "semi:colon=eq", "file:name", "trailing."];
+const DIR_NAMES: [&str; 17] = ["<link>moved-to-the-big-disk", "<under-link>sync/data", "<relative>~/tss", "<relative>./state/../state/db", "<latin-1>donn\u{e9}es", "not/yet/there", "fresh volume/sync", "my data", "store#1", "which?", "tasks%41", "d\u{e4}ta-\u{fc}", "a'b\"c", "x;y&z", "semi:colon=eq", "file:name", "trailing."];
 
 impl Cfg {
     fn json(&self) -> Value {
@@ -41,7 +44,7 @@ impl Cfg {
         json!({"listen": self.addrs, "listen_given_by": lf, "data_dir_by": if self.data_by_env { "DATA_DIR env" } else { "--data-dir" },
                "allow_list": self.allow.iter().map(|u| u.to_string()).collect::<Vec<_>>(), "allow_given_by": af,
                "snapshot_versions": self.versions, "snapshot_versions_by": if self.versions_by_env { "SNAPSHOT_VERSIONS env" } else { "--snapshot-versions" },
-               "data_dir_name": self.dir_name, "occupied_address": self.occupied.map(|i| self.addrs[i].clone()), "snapshot_days": self.days, "snapshot_days_by": if self.days_by_env { "SNAPSHOT_DAYS env" } else { "--snapshot-days" }})
+               "data_dir_name": self.dir_name, "own_pid_namespace": self.pidns, "occupied_address": self.occupied.map(|i| self.addrs[i].clone()), "snapshot_days": self.days, "snapshot_days_by": if self.days_by_env { "SNAPSHOT_DAYS env" } else { "--snapshot-days" }})
     }
     fn launch(&self, dir: &std::path::Path) -> (Vec<std::ffi::OsString>, Vec<(String, std::ffi::OsString)>) {
         let mut args: Vec<std::ffi::OsString> = vec![];
@@ -145,6 +148,7 @@ fn gen_cfg(rng: &mut Rng) -> Option<Cfg> {
         days_by_env: rng.pct(50),
         occupied: if occupy { Some(occ_idx) } else { None },
         dir_name: if rng.pct(45) { "data".to_string() } else { rng.pick(&DIR_NAMES).to_string() },
+        pidns: false,
     })
 }
 
@@ -159,6 +163,24 @@ fn call(addr: &str, client: Uuid, req: &Req) -> (Resp, HttpResp) {
 
 fn fail(msg: String, cfg: &Cfg, case: usize) -> Found {
     Found { property: "C17".into(), signature: format!("C17:{}", msg.split_whitespace().take(8).collect::<Vec<_>>().join(" ")), msg, replay: json!({"origin": "c17", "case": case, "configuration": cfg.json()}) }
+}
+
+/// Is `unshare --pid` usable here (it needs privileges)? Probed once.
+fn pidns_available() -> bool {
+    static OK: std::sync::OnceLock<bool> = std::sync::OnceLock::new();
+    *OK.get_or_init(|| std::process::Command::new("unshare").args(["--pid", "--fork", "--kill-child", "--mount-proc", "true"]).stdin(std::process::Stdio::null()).stdout(std::process::Stdio::null()).stderr(std::process::Stdio::null()).status().map(|s| s.success()).unwrap_or(false))
+}
+
+/// Start the executable, directly or as process 1 of a new PID namespace (`unshare --kill-child`:
+/// killing the launcher with SIGKILL kills the server with SIGKILL).
+fn start_server(cfg: &Cfg, bin: &std::path::Path, args: &[std::ffi::OsString], env: &[(String, std::ffi::OsString)], probe: &[String], cwd: Option<&std::path::Path>) -> Result<Proc, String> {
+    if !cfg.pidns {
+        return Proc::start_in(bin, args, env, probe, Duration::from_secs(20), cwd);
+    }
+    let mut a: Vec<std::ffi::OsString> = ["--pid", "--fork", "--kill-child", "--mount-proc"].iter().map(|s| s.into()).collect();
+    a.push(bin.as_os_str().to_os_string());
+    a.extend(args.iter().cloned());
+    Proc::start_in(std::path::Path::new("/usr/bin/unshare"), &a, env, probe, Duration::from_secs(20), cwd)
 }
 
 /// One configuration end to end; returns a violation message if any.
@@ -178,11 +200,33 @@ fn run_cfg(cfg: &Cfg, bin: &std::path::Path, rng: &mut Rng, cov: &mut Cov) -> Re
         Some(r) => r.clone().into(),
         None => dir_os,
     };
-    let data = dir.path().join(&dir_os);
-    let given: std::path::PathBuf = match &relative {
+    let mut data = dir.path().join(&dir_os);
+    let mut given: std::path::PathBuf = match &relative {
         Some(r) => std::path::PathBuf::from(r),
         None => data.clone(),
     };
+    // the configured path is a symbolic link to the directory (data moved to another disk, the
+    // old path kept as a link), or lies below a linked directory (a mounted volume)
+    if let Some(name) = cfg.dir_name.strip_prefix("<link>") {
+        data = dir.path().join("real-volume").join(name);
+        std::fs::create_dir_all(&data).map_err(|e| format!("mkdir: {e}"))?;
+        given = dir.path().join("data-link");
+        std::os::unix::fs::symlink(&data, &given).map_err(|e| format!("symlink: {e}"))?;
+        cov.hit("data-dir:symbolic-link-to-the-directory".into());
+    } else if let Some(name) = cfg.dir_name.strip_prefix("<under-link>") {
+        let real = dir.path().join("real-volume");
+        std::fs::create_dir_all(&real).map_err(|e| format!("mkdir: {e}"))?;
+        let mnt = dir.path().join("mnt");
+        std::os::unix::fs::symlink(&real, &mnt).map_err(|e| format!("symlink: {e}"))?;
+        data = real.join(name);
+        given = mnt.join(name);
+        cov.hit("data-dir:below-a-symbolic-link".into());
+    }
+    if cfg.pidns {
+        cov.hit("own-pid-namespace".into());
+    }
+    // what the harness itself put into the scratch directory before the server ran
+    let preexisting: Vec<String> = std::fs::read_dir(dir.path()).map(|r| r.filter_map(|e| e.ok()).map(|e| e.file_name().to_string_lossy().to_string()).collect()).unwrap_or_default();
     let cwd: Option<std::path::PathBuf> = relative.as_ref().map(|_| dir.path().to_path_buf());
     let (args, env) = cfg.launch(&given);
     let eff = cfg.effective();
@@ -190,7 +234,7 @@ fn run_cfg(cfg: &Cfg, bin: &std::path::Path, rng: &mut Rng, cov: &mut Cov) -> Re
     if let Some(oi) = cfg.occupied {
         let a = cfg.addrs[oi].replace("localhost", "127.0.0.1");
         let Ok(_holder) = std::net::TcpListener::bind(&a) else { return Err("cannot occupy the address".into()) };
-        let mut proc = match Proc::start_in(bin, &args, &env, &[], Duration::from_secs(20), cwd.as_deref()) {
+        let mut proc = match start_server(cfg, bin, &args, &env, &[], cwd.as_deref()) {
             Ok(p) => p,
             Err(_) => {
                 cov.hit("unbindable-address:refused-to-start".into());
@@ -214,7 +258,7 @@ fn run_cfg(cfg: &Cfg, bin: &std::path::Path, rng: &mut Rng, cov: &mut Cov) -> Re
         cov.hit("unbindable-address:not-serving".into());
         return Ok(None);
     }
-    let mut proc = match Proc::start_in(bin, &args, &env, &[], Duration::from_secs(20), cwd.as_deref()) {
+    let mut proc = match start_server(cfg, bin, &args, &env, &[], cwd.as_deref()) {
         Ok(p) => p,
         Err(e) => {
             if cfg.dir_name != "data" {
@@ -330,7 +374,7 @@ fn run_cfg(cfg: &Cfg, bin: &std::path::Path, rng: &mut Rng, cov: &mut Cov) -> Re
     }
     // ... and nowhere else: the configured directory is the only entry next to it
     let top_component: String = std::path::Path::new(&dir_os).components().find_map(|c| if let std::path::Component::Normal(n) = c { Some(n.to_string_lossy().to_string()) } else { None }).unwrap_or_default();
-    let siblings: Vec<String> = std::fs::read_dir(dir.path()).map(|r| r.filter_map(|e| e.ok()).map(|e| e.file_name().to_string_lossy().to_string()).filter(|n| *n != top_component && *n != dir_os.to_string_lossy()).collect()).unwrap_or_default();
+    let siblings: Vec<String> = std::fs::read_dir(dir.path()).map(|r| r.filter_map(|e| e.ok()).map(|e| e.file_name().to_string_lossy().to_string()).filter(|n| *n != top_component && *n != dir_os.to_string_lossy() && !preexisting.contains(n)).collect()).unwrap_or_default();
     if !siblings.is_empty() {
         return Ok(Some(format!("the server was given the data directory {:?} but also created {siblings:?} next to it", data.display().to_string())));
     }
@@ -367,7 +411,33 @@ fn run_cfg(cfg: &Cfg, bin: &std::path::Path, rng: &mut Rng, cov: &mut Cov) -> Re
     cfg2.listen_form = (cfg.listen_form + 1) % 3;
     cfg2.data_by_env = !cfg.data_by_env;
     let (args, env) = cfg2.launch(&given);
-    let mut proc = Proc::start_in(bin, &args, &env, &cfg.addrs, Duration::from_secs(20), cwd.as_deref()).map_err(|e| format!("restart: {e}"))?;
+    let mut tries = 0;
+    let started = loop {
+        tries += 1;
+        match start_server(cfg, bin, &args, &env, &cfg.addrs, cwd.as_deref()) {
+            Ok(p) => break Ok(p),
+            // (the killed server's sockets may take a moment to go away)
+            Err(_) if tries < 3 => std::thread::sleep(Duration::from_millis(400)),
+            Err(e) => break Err(e),
+        }
+    };
+    let mut proc = match started {
+        Ok(p) => p,
+        Err(e) => {
+            // the addresses may have been taken by someone else in the meantime: does the same
+            // configuration start on an empty directory?
+            std::thread::sleep(Duration::from_millis(300));
+            let fresh = dir.path().join("control-empty-directory");
+            let (a2, e2) = cfg2.launch(&fresh);
+            return match start_server(cfg, bin, &a2, &e2, &cfg.addrs, None) {
+                Ok(mut p2) => {
+                    p2.kill9();
+                    Ok(Some(format!("after kill -9 the server does not start again on its data directory {:?} ({e}){}, although the same configuration starts on an empty directory", given.display().to_string(), if cfg.pidns { " (the server runs as process 1 of its own PID namespace, as in a container)" } else { "" })))
+                }
+                Err(_) => Err(format!("restart: {e}")),
+            };
+        }
+    };
     cov.hit("kill9-restart".into());
     for (i, r) in reads.iter().enumerate() {
         let (after, _) = call(&pick_addr(rng), client, r);
@@ -401,7 +471,7 @@ fn run_cfg(cfg: &Cfg, bin: &std::path::Path, rng: &mut Rng, cov: &mut Cov) -> Re
             t.commit().map_err(|e| format!("{e:#}"))?;
         }
         let (args, env) = cfg.launch(&given);
-        let mut proc = Proc::start_in(bin, &args, &env, &cfg.addrs, Duration::from_secs(20), cwd.as_deref()).map_err(|e| format!("restart: {e}"))?;
+        let mut proc = start_server(cfg, bin, &args, &env, &cfg.addrs, cwd.as_deref()).map_err(|e| format!("restart: {e}"))?;
         let (r, raw) = call(&pick_addr(rng), client, &Req::AddVersion { parent, data: b"after-aging".to_vec() });
         proc.kill9();
         match r {
@@ -455,6 +525,7 @@ pub fn shard_run(tier: &str, seed: u64, replay_case: Option<usize>, shard: Shard
             if cfg.occupied.is_some() && cfg.dir_name != "data" {
                 cfg.occupied = None;
             }
+            cfg.pidns = i % 3 == 2 && cfg.occupied.is_none() && pidns_available();
             match run_cfg(&cfg, &bin, &mut rng, &mut cov) {
                 Ok(None) => {
                     out.executed += 1;
@@ -525,12 +596,12 @@ pub fn finalize(out: ShardOut, is_replay: bool) -> CheckResult {
     let coverage = json!({
         "evaluations": cov.evaluations,
         "distinct_nontrivial": cov.situations.len(),
-        "rule": "configurations drawn from the seed: 1-3 listen addresses among 127.0.0.1 / [::1] / localhost (repeated flag, comma list, LISTEN), data directory by flag or DATA_DIR, allow-list none/one/many in non-ascending order (repeated flag, comma list, CLIENT_ID), snapshot-versions in {1,2,3,5} and snapshot-days in {1,2,3,5,30} by flag or env or defaulted. The real executable is started; every address must serve (and in a quarter of the multi-address configurations one address is already taken by another listener: the server must then refuse to start rather than run half-configured); every listed client is served and a stranger refused on every address; a history of add-versions checks X-Snapshot-Request against the exact specification for the configured targets; kill -9, restart with the equivalent configuration given in the other form: chain, payloads and snapshot must be served as stored; then the stored snapshot is aged with the storage API while the server is down (target-1, target, 3/2 target+1 days) and the urgency after restart must follow snapshot-days. distinct_nontrivial = distinct configuration features / observations.",
+        "rule": "configurations drawn from the seed: 1-3 listen addresses among 127.0.0.1 / [::1] / localhost (repeated flag, comma list, LISTEN), data directory by flag or DATA_DIR (plain and unusual names, relative paths, a symbolic link to the directory, a path below a linked directory), a third of the configurations with the server as process 1 of a PID namespace of its own (where `unshare --pid` is permitted), allow-list none/one/many in non-ascending order (repeated flag, comma list, CLIENT_ID), snapshot-versions in {1,2,3,5} and snapshot-days in {1,2,3,5,30} by flag or env or defaulted. The real executable is started; every address must serve (and in a quarter of the multi-address configurations one address is already taken by another listener: the server must then refuse to start rather than run half-configured); every listed client is served and a stranger refused on every address; a history of add-versions checks X-Snapshot-Request against the exact specification for the configured targets; kill -9, restart with the equivalent configuration given in the other form: chain, payloads and snapshot must be served as stored; then the stored snapshot is aged with the storage API while the server is down (target-1, target, 3/2 target+1 days) and the urgency after restart must follow snapshot-days. distinct_nontrivial = distinct configuration features / observations.",
         "samples": cov.samples,
         "configurations_completed": out.executed,
         "situations": top.iter().take(40).map(|(k, v)| json!({"situation": k, "n": v})).collect::<Vec<_>>(),
     });
-    let required = ["unbindable-address:", "address-served:ipv4", "address-served:ipv6", "address-served:name", "allow:many", "allow:none", "kill9-restart", "urgency-by-versions:Low", "urgency-by-versions:High", "urgency-by-age:Low", "urgency-by-age:High", "urgency-by-age:None", "data-dir:env", "data-dir:flag", "data-dir-name:unusual", "kill9-restart:another-process-has-the-database-open"];
+    let required = ["unbindable-address:", "address-served:ipv4", "address-served:ipv6", "address-served:name", "allow:many", "allow:none", "kill9-restart", "urgency-by-versions:Low", "urgency-by-versions:High", "urgency-by-age:Low", "urgency-by-age:High", "urgency-by-age:None", "data-dir:env", "data-dir:flag", "data-dir-name:unusual", "kill9-restart:another-process-has-the-database-open", "data-dir:symbolic-link-to-the-directory", "data-dir:below-a-symbolic-link"];
     let verdict = if !out.found.is_empty() {
         Verdict::Violated(out.found)
     } else if !out.errors.is_empty() {
